@@ -103,6 +103,8 @@ def bigify(t, rnd):
 def gen_write_case(rnd):
     nv = rnd.choice([1, 2, 2, 3])
     chosen = rnd.sample(c12.POOL, nv)
+    if rnd.random() < 0.08:
+        chosen = chosen[:1] + [("t", rnd.choice([11, 12]))]      # a long variable: two-digit component indices in the labels
     sz = {v: s for v, s in chosen}
     g = c12.Gen(rnd, sz)
     kind = rnd.random()
@@ -115,7 +117,7 @@ def gen_write_case(rnd):
             cons.append({"a": var, "rel": ">=", "b": {"op": "const", "c": [rnd.randint(-3, 0)], "form": "num"}})
             cons.append({"a": var, "rel": "<=", "b": {"op": "const", "c": [rnd.randint(1, 4)], "form": "num"}})
     for _ in range(rnd.choice([0, 1, 1, 2, 3])):
-        L = rnd.choice([1, 1, 2, 3])
+        L = rnd.choice([1, 1, 2, 3] + ([sz["t"]] * 3 if "t" in sz else []))
         r = rnd.random()
         if r < 0.6:
             cons.append({"a": g.affine(L), "rel": rnd.choice(["<=", ">="]), "b": g.const(L) if rnd.random() < 0.7 else g.affine(L)})
@@ -188,9 +190,10 @@ def gen_read_case(rnd):
                 recs.append(dat("", c, ents[i][0], ents[i][1], fmt=rnd.choice(["d", "f", "E"])))
                 i += 1
     recs.append({"k": "sec", "s": "RHS", "n1": []})
+    rhsname, rngname, bndname = [rnd.choice([nm, nm, ""]) for nm in ("rhs", "rng", "bnd")]     # the first vector may have a blank name
     for l in labels:
         if rnd.random() < 0.6:
-            recs.append(dat("", "rhs", l, rnd.randint(-6, 6)))
+            recs.append(dat("", rhsname, l, rnd.randint(-6, 6)))
         if rnd.random() < 0.15:
             recs.append(dat("", "rhs2", l, rnd.randint(-6, 6)))      # a second right-hand side vector: ignored
     conrows = [l for t, l in order if t != "N"]
@@ -198,7 +201,7 @@ def gen_read_case(rnd):
         recs.append({"k": "sec", "s": "RANGES", "n1": []})
         for l in conrows:
             if rnd.random() < 0.6:
-                recs.append(dat("", "rng", l, rnd.choice([-4, -2, -1, 0, 1, 3, 5])))
+                recs.append(dat("", rngname, l, rnd.choice([-4, -2, -1, 0, 1, 3, 5])))
             if rnd.random() < 0.1:
                 recs.append(dat("", "rng2", l, 7))
     if rnd.random() < 0.7:
@@ -210,7 +213,7 @@ def gen_read_case(rnd):
             kinds = rnd.choice([["LO"], ["UP"], ["FX"], ["FR"], ["MI"], ["PL"], ["LO", "UP"], ["MI", "UP"], ["UP", "LO"], ["LO", "PL"],
                                 ["FR", "UP"], ["LO", "LO"], ["UP", "UP"], ["FX", "LO"], ["MI", "MI"], ["LO", "FX"]])
             for kd in kinds:
-                recs.append(dat(kd, "bnd", c, rnd.randint(-4, 6)))
+                recs.append(dat(kd, bndname, c, rnd.randint(-4, 6)))
             if rnd.random() < 0.1:
                 recs.append(dat("UP", "bnd2", c, 9))
     recs.append({"k": "sec", "s": "ENDATA", "n1": []})
@@ -408,7 +411,7 @@ def run(tier, seed, replay=None):
             payload.append({"kind": "w", "P": P, "vord": o.get("vord", sorted(c["P"]["sz"])), "recs": recs, "hasfile": hasfile})
         else:
             payload.append({"kind": "r", "recs": [{k: v for k, v in r.items() if k not in ("fmt", "hasv")} for r in c["recs"]]})
-    res = c12.tlc_batch(ck, "MC_MPS", "m", payload, chunk=500)
+    res = c12.tlc_batch(ck, "MC_MPS", "m", payload, chunk=64, par=14)
     ck.states = max(ck.states, 1); ck.transitions = max(ck.transitions, 1)
     stats = {"nonlp": 0, "collide": 0, "emptyrow": 0, "read_err_expected": 0, "w": 0, "r": 0}
     for c, r in zip(cases, res):
@@ -464,7 +467,9 @@ def run(tier, seed, replay=None):
                 ck.violation("mps|fromfile|builds-other-constraints|roundtrip|" + site, "fromfile(tofile(lp)): %s; %s" % (d, desc), {"case": c, "expected_read": r["read"]})
                 continue
             s0, s1 = o.get("solve0", {}), o.get("solve1", {})
-            if "raised" in s0 or "raised" in s1:
+            if P["big"]:
+                pass          # data rounded to six digits: a different (nearby) LP, whose status and value may differ
+            elif "raised" in s0 or "raised" in s1:
                 if ("raised" in s0) != ("raised" in s1):
                     ck.violation("mps|roundtrip|solve-raises", "solve before/after the round trip: %s / %s; %s" % (s0, s1, desc), {"case": c})
             elif s0.get("status") != s1.get("status"):
